@@ -115,6 +115,7 @@ E2E_CANDS = {
     "r/test/t.py": "file",
     "r/mytest.py": "file",
     "r/testx.py": "file",  # its path has the directory path r/test as a raw string prefix
+    "r/g\\h.py": "file",  # a backslash is an ordinary character of a POSIX file name (and a regex metacharacter)
 }
 E2E_LINES = {
     "r/ab.py": ["import r.aab", "import r.test.t"],
@@ -128,6 +129,8 @@ P = "/symfs/"
 PATTERN_SETS = [
     ("*a+b.py",),
     ("*/t.py",),
+    ("*g\\h.py",),
+    ("*g/h.py", "*\\*"),
     ("*c(1)*",),
     (P + "r/c(1)",),
     (P + "r/x$y.py",),
@@ -172,6 +175,7 @@ REGEX_SETS = [
     (r".*/(?P<n>t)es(?P=n)$",),
     (r".*test",),
     (r".*/test/[a-z]\.py$",),
+    (r".*g\\h\.py$", r".*g/h\.py$"),
     (P + "r/ab",),
     (r"r/ab\.py",),
     (r".*/ab\.py$|.*/k\.py$",),
@@ -437,13 +441,16 @@ def e2e_fixed(patterns, tier: str) -> dict:
         return {}
     frags = set()
     for p in patterns:
-        core = p.replace(P, "").replace("\\", "")
+        core = p.replace(P, "").replace(".py", "").strip("*")
+        if len(core) < 2:
+            continue  # a generic pattern ('*', '*.py') matches every file alike
         frags |= {core[i : i + 2] for i in range(len(core) - 1)}
+        frags |= {f.replace("\\", "") for f in frags}
     fixed = {}
     for c, kind in E2E_CANDS.items():
         if kind != "file" or c in E2E_LINES:
             continue
-        name = c[2:]
+        name = c[2:].replace(".py", "")
         if not any(name[i : i + 2] in frags for i in range(len(name) - 1)):
             fixed[c] = True
     return fixed
